@@ -753,12 +753,15 @@ def main(argv):
         no_shrink = False
         if ops and not replay and STREAMS[sname].get('confirm'):
             # streams that involve the wall clock / the scheduler: a failure must reproduce when the case is re-run alone
-            again = False
+            # (two of three: a deterministic defect reproduces every time; what shows once under load does not count)
+            hits = 0
             for _ in range(3):
                 _pr, _div, _fails = single_case_eval(sname, binp, prop, ops, workdir, proj_rx, tag='confirm')
                 if any(match_known(prop, sname, x, known) is None for x in _fails):
-                    again = True
+                    hits += 1
+                if hits >= 2:
                     break
+            again = hits >= 2
             if not again and c is not None and prefix_of.get(id(c)):
                 # process-level state can leak from earlier cases of the same run (package variables of the daemon):
                 # re-run the run's cases up to and including this one
